@@ -44,7 +44,8 @@ def angle_expr(k, m):
 
 ROT = ("rx", "ry", "rz")
 FIELDS = {"Q1": [("q", 1, True)], "Q2": [("r", 2, True)], "QU": [("q", 1, False), ("p", 1, False)],
-          "QD": [("q", 1, True), ("d", 1, False)]}
+          "QD": [("q", 1, True), ("d", 1, False)], "QG": [("r", 2, True)], "QH": [("r", 2, True)]}
+TYPE_TEXT = {"QG": "QG<int>"}         # how a spec class is written in source (and named in the tracked table)
 
 
 def ref_text(vars_, v, e):
@@ -75,6 +76,12 @@ class Q2 { @tracked public qubit[2] r; public constructor() -> Q2 = default;
   public function om(int i) -> bit { bit r0 = measure r[i]; return r0; }
   public function oms(int i) -> void { measure this.r[i]; }
 }
+class QG<T> { @tracked public qubit[2] r; public T tag; public constructor() -> QG<T> = default;
+  public function ogate(int i, int g, float a) -> void { if (g == 0) { h(r[i]); } if (g == 1) { x(this.r[i]); } if (g == 2) { y(r[i]); } if (g == 3) { z(r[i]); } if (g == 4) { rx(r[i], a); } if (g == 5) { ry(r[i], a); } if (g == 6) { rz(this.r[i], a); } }
+  public function om(int i) -> bit { bit r0 = measure r[i]; return r0; }
+  public function oms(int i) -> void { measure this.r[i]; }
+}
+class QH extends QG<int> { public int extra = 1; public constructor() -> QH { super(); } }
 class QU { public qubit q; public qubit p; public constructor() -> QU = default;
   public function ogate(int i, int g, float a) -> void { if (i == 0) { if (g == 0) { h(q); } if (g == 1) { x(q); } if (g == 2) { y(q); } if (g == 3) { z(q); } if (g == 4) { rx(q, a); } if (g == 5) { ry(q, a); } if (g == 6) { rz(q, a); } } else { if (g == 0) { h(p); } if (g == 1) { x(p); } if (g == 2) { y(p); } if (g == 3) { z(p); } if (g == 4) { rx(p, a); } if (g == 5) { ry(p, a); } if (g == 6) { rz(p, a); } } }
   public function om(int i) -> bit { if (i == 0) { bit r0 = measure q; return r0; } bit r1 = measure p; return r1; }
@@ -94,6 +101,7 @@ static class Ops {
 }
 function relayQ1(Q1 o, int g, float a, qubit q) -> void { o.ogate(g, a); }
 function relayQ2(Q2 o, int i, int g, float a, qubit[] r) -> void { o.ogate(i, g, a); }
+function relayQG(QG<int> o, int i, int g, float a, qubit[] r) -> void { o.ogate(i, g, a); }
 function relayQU(QU o, int i, int g, float a, qubit q, qubit p) -> void { o.ogate(i, g, a); }
 function relayQD(QD o, int i, int g, float a, qubit q, qubit d) -> void { o.ogate2(i, g, a); }
 @quantum function fgate(qubit t, int g, float a) -> void { if (g == 0) { h(t); } if (g == 1) { x(t); } if (g == 2) { y(t); } if (g == 3) { z(t); } if (g == 4) { rx(t, a); } if (g == 5) { ry(t, a); } if (g == 6) { rz(t, a); } }
@@ -138,7 +146,8 @@ def render(beh):
         elif s == "declarr":
             lines.append("%squbit[2] v%d;" % ("@tracked " if st["tracked"] else "", st["v"]))
         elif s == "new":
-            lines.append("%s v%d = new %s();" % (st["cls"], st["v"], st["cls"]))
+            tt = TYPE_TEXT.get(st["cls"], st["cls"])
+            lines.append("%s v%d = new %s();" % (tt, st["v"], tt))
         elif s == "gate":
             ref, own = ref_text(vars_, st["v"], st["e"])
             g, k, path = st["g"], st["k"], st["path"]
@@ -167,7 +176,7 @@ def render(beh):
                         lines.append("v%d.ogate(%d, %d, %s);" % (st["v"], st["e"] - 1, GIDX[g], ang))
                 else:
                     if relay and others_a:
-                        lines.append("relayQ2(v%d, %d, %d, %s, v%d);" % (st["v"], st["e"] - 1, GIDX[g], ang, others_a[-1][0]))
+                        lines.append("relay%s(v%d, %d, %d, %s, v%d);" % ("Q2" if var["cls"] == "Q2" else "QG", st["v"], st["e"] - 1, GIDX[g], ang, others_a[-1][0]))
                     else:
                         lines.append("v%d.ogate(%d, %d, %s);" % (st["v"], st["e"] - 1, GIDX[g], ang))
             elif path == "fn":
@@ -355,6 +364,9 @@ def compare(beh, info, res, tol=2e-5, log_on=True):
     # tracked outcomes
     exp = {}
     for key, outcome in beh["trk"]:
+        for spec_name, text in TYPE_TEXT.items():
+            if key.startswith(spec_name + "."):
+                key = text + key[len(spec_name):]
         exp.setdefault(key, {})
         exp[key][outcome] = exp[key].get(outcome, 0) + 1
     if shot.get("tracked") != exp:
